@@ -10,7 +10,13 @@ c14_sched : deterministic schedules.  N real requests for the same directory run
 c14_stress: the real ThreadingTCPServer / ForkingTCPServer in a child process, TLS
             enabled, ephemeral port; sequential answers first, then bursts of
             simultaneous mixed-protocol clients; liveness and reaping afterwards.
-            Schedules are NOT controlled here: stress, not proof."""
+            Schedules are NOT controlled here: stress, not proof.
+c14_failing_clients: clients whose connection FAILS before a request exists (eight kinds of TLS
+            negotiation that never completes / resets) next to good clients.  Threading server,
+            deterministic: the failing client's worker is stopped at every event of its error path
+            (trace hook in the launcher script, mode "errpath") while a good client is accepted and
+            gets the lowest free descriptor number; then rounds of a few failing + a few good clients
+            on the threading (switch interval 10 us) and forking server."""
 import hashlib
 import json
 import os
@@ -298,6 +304,89 @@ if len(sys.argv) > 3 and sys.argv[3] == "perturb":
         return _get(self, section, option, *a, **k)
 
     re.compile, builtins.eval, configparser.RawConfigParser.get = slow_compile, slow_eval, slow_get
+if len(sys.argv) > 3 and sys.argv[3] == "switchy":
+    sys.setswitchinterval(float(sys.argv[4]))      # the interpreter switches threads as often as it can; nothing else
+_ep = None
+if len(sys.argv) > 3 and sys.argv[3] == "errpath" and hasattr(server, "process_request_thread"):
+    # Deterministic preemption of a worker on its ERROR PATH, installed from outside the code under test.  Every
+    # worker thread is traced; from the moment an exception shows up in a frame of pygopherd/server.py (the
+    # worker's own code: wrap_socket, process_request_thread, the request handler) the events of that thread in
+    # frames of that file -- the exception event itself, then every line and return -- are numbered 1, 2, ...  The
+    # controller arms a number k: the first worker that reaches its k-th event stops there until it is released.
+    # Accepted connections (descriptor numbers) and finished workers are counted by wrapping the two socketserver
+    # hooks get_request / process_request_thread of the server OBJECT.  Nothing else changes.
+    import time
+    _srvfile = os.path.join("pygopherd", "server.py")
+    _tl = threading.local()
+    _cv = threading.Condition()
+    _ep = {"arm": 0, "paused": None, "go": False, "accepted": [], "done": 0}
+
+    def _event(frame, event, arg):
+        if event == "exception":
+            _tl.failed = True
+        if getattr(_tl, "failed", False) and event in ("exception", "line", "return"):
+            _tl.ord = getattr(_tl, "ord", 0) + 1
+            with _cv:
+                if _ep["arm"] and _tl.ord == _ep["arm"]:
+                    _ep["arm"] = 0
+                    _ep["paused"] = [frame.f_code.co_name, frame.f_lineno, event,
+                                     (type(arg[1]).__name__ + ": " + str(arg[1]))[:200] if event == "exception" else None]
+                    _cv.notify_all()
+                    t0 = time.time()
+                    while not _ep["go"] and time.time() - t0 < 20:
+                        _cv.wait(1)
+        return _event
+
+    def _tracer(frame, event, arg):
+        if frame.f_code.co_filename.endswith(_srvfile) and threading.current_thread() is not t:
+            return _event
+        return None
+
+    _prt, _gr = server.process_request_thread, server.get_request
+
+    def _counted_worker(request, client_address):
+        try:
+            _prt(request, client_address)
+        finally:
+            with _cv:
+                _ep["done"] += 1
+                _cv.notify_all()
+
+    def _counted_get_request():
+        r = _gr()
+        with _cv:
+            _ep["accepted"].append(r[0].fileno())
+            _cv.notify_all()
+        return r
+
+    server.process_request_thread, server.get_request = _counted_worker, _counted_get_request
+    threading.settrace(_tracer)
+
+    def _ep_cmd(words):
+        verb = words[0]
+        with _cv:
+            if verb == "arm":
+                _ep["arm"], _ep["paused"], _ep["go"] = int(words[1]), None, False
+            elif verb == "untrace":
+                # from now on: new workers are not traced, and the interpreter switches threads as often as it can
+                threading.settrace(None)
+                _ep["go"], _ep["arm"] = True, 0
+                sys.setswitchinterval(float(words[1]))
+            elif verb == "go":
+                _ep["go"], _ep["arm"] = True, 0
+                _cv.notify_all()
+            elif verb in ("wait", "acc", "done"):
+                n, limit = int(words[1]), time.time() + float(words[2])
+                while time.time() < limit:
+                    if verb == "wait" and (_ep["paused"] is not None or _ep["done"] > n):
+                        break          # the armed worker stopped, or a worker finished without getting that far
+                    if verb == "acc" and len(_ep["accepted"]) >= n:
+                        break
+                    if verb == "done" and _ep["done"] >= n:
+                        break
+                    _cv.wait(0.2)
+            return {"paused": _ep["paused"], "done": _ep["done"], "accepted": len(_ep["accepted"]),
+                    "fds": _ep["accepted"][-6:], "armed": _ep["arm"]}
 t.start()
 ctl.write(json.dumps({"port": server.socket.getsockname()[1], "pid": os.getpid(), "type": type(server).__name__,
                       "tls": context is not None}) + "\n")
@@ -311,6 +400,9 @@ for line in sys.stdin:
         ctl.write(json.dumps({"active_children": len(ac) if ac else 0, "threads": threading.active_count(),
                               "serving": t.is_alive(), "environ": envh, "cwd": os.getcwd(),
                               "environ_keys": sorted(k for k in os.environ if k.isupper())[:80]}) + "\n")
+        ctl.flush()
+    elif cmd.startswith("ep "):
+        ctl.write(json.dumps(_ep_cmd(cmd.split()[1:]) if _ep is not None else {"unsupported": True}) + "\n")
         ctl.flush()
     elif cmd == "quit":
         break
@@ -329,12 +421,12 @@ def _mask(b):
 
 
 class Server:
-    def __init__(self, repo, conf_path, logpath, perturb=None):
+    def __init__(self, repo, conf_path, logpath, perturb=None, mode=None):
         env = dict(os.environ, PYTHONPATH=repo, PYTHONDONTWRITEBYTECODE="1")
         self.script = tempfile.NamedTemporaryFile("w", suffix=".py", delete=False)
         self.script.write(SERVER_SCRIPT)
         self.script.close()
-        extra = ["perturb", str(perturb)] if perturb else []
+        extra = ["perturb", str(perturb)] if perturb else (list(map(str, mode)) if mode else [])
         self.errpath = logpath + ".stderr"
         self.errf = open(self.errpath, "w")
         self.p = subprocess.Popen([sys.executable, self.script.name, conf_path, logpath] + extra, stdin=subprocess.PIPE,
@@ -352,6 +444,15 @@ class Server:
         self.p.stdin.write("stat\n")
         self.p.stdin.flush()
         return json.loads(self.p.stdout.readline())
+
+    def cmd(self, line):
+        """one control command of the errpath mode; the reply is the hook's state"""
+        self.p.stdin.write(line + "\n")
+        self.p.stdin.flush()
+        reply = self.p.stdout.readline()
+        if not reply:
+            raise RuntimeError("the server process is gone")
+        return json.loads(reply)
 
     def children(self):
         """(running, zombie) direct children of the server process"""
@@ -470,8 +571,9 @@ CONNECT_PACE = 0.004
 
 
 def _exchange(port, rq, barrier=None, handshake_first=True, timeout=None, connect_late=False, send_delay=0.0,
-              split_at=0, slot=0):
+              split_at=0, slot=0, ctx=None):
     timeout = timeout or CLIENT_TIMEOUT
+    _client_ctx = (lambda: ctx) if ctx is not None else globals()["_client_ctx"]
     err = None
     data = b""
     try:
@@ -991,7 +1093,371 @@ def c14_probe_list(job, drv):
         w.close()
 
 
+# ----------------------------------------------------------------------------
+# clients whose connection FAILS (TLS negotiation that never completes, resets) next to well-behaved clients
+# ----------------------------------------------------------------------------
+FAIL_KINDS = ["tls-garbage", "tls-first-byte-then-close", "tls-truncated-hello-then-close", "tls-hello-then-reset",
+              "tls-old-version-hello", "tls-no-shared-cipher", "tls-client-rejects-certificate", "reset-before-first-byte"]
+
+
+_CTX = {}
+
+
+def _ctx(kind="good"):
+    """client contexts of the failing-clients leg, built once (loading the CA bundle takes tens of ms)"""
+    with _CTX_LOCK:
+        if kind not in _CTX:
+            if kind == "verifying":
+                c = ssl.create_default_context()               # verifies: the self-signed certificate is refused
+            else:
+                c = _client_ctx()
+                if kind in ("tls12", "no-shared-cipher"):
+                    c.maximum_version = ssl.TLSVersion.TLSv1_2
+                if kind == "no-shared-cipher":
+                    c.set_ciphers("ECDHE-ECDSA-AES128-GCM-SHA256")      # the server's certificate is RSA
+            _CTX[kind] = c
+        return _CTX[kind]
+
+
+_CTX_LOCK = threading.Lock()
+
+
+def _client_hello(tls12=False):
+    """the bytes of a genuine ClientHello record (built by the TLS library, nothing sent)"""
+    ctx = _ctx("tls12" if tls12 else "good")
+    inc, out = ssl.MemoryBIO(), ssl.MemoryBIO()
+    o = ctx.wrap_bio(inc, out, server_hostname="gopher.example")
+    try:
+        o.do_handshake()
+    except ssl.SSLWantReadError:
+        pass
+    return out.read()
+
+
+def _failing_client(port, kind, delay=0.0):
+    """A client whose exchange with the server fails before any request is sent.  Returns what it did (for the
+    replay); nothing is expected back."""
+    import struct
+    note = kind
+    try:
+        if delay:
+            time.sleep(delay)
+        s = socket.create_connection(("127.0.0.1", port), timeout=3)
+        try:
+            if kind == "tls-garbage":
+                s.sendall(b"\x16\x03\x01\x00\x2f" + b"this is not a client hello at all, just bytes.."[:47].ljust(47, b"."))
+                s.settimeout(2)
+                s.recv(100)
+            elif kind == "tls-first-byte-then-close":
+                s.sendall(b"\x16")
+            elif kind == "tls-truncated-hello-then-close":
+                h = _client_hello()
+                s.sendall(h[:len(h) // 2])
+            elif kind == "tls-hello-then-reset":
+                s.sendall(_client_hello())
+                s.setsockopt(socket.SOL_SOCKET, socket.SO_LINGER, struct.pack("ii", 1, 0))
+            elif kind == "tls-old-version-hello":
+                h = bytearray(_client_hello(tls12=True))
+                h[1:3] = b"\x03\x00"          # record layer and ClientHello both say SSL 3.0
+                h[9:11] = b"\x03\x00"
+                s.sendall(bytes(h))
+                s.settimeout(2)
+                s.recv(100)
+            elif kind == "tls-no-shared-cipher":
+                _ctx("no-shared-cipher").wrap_socket(s).close()
+                note += " (handshake unexpectedly succeeded)"
+            elif kind == "tls-client-rejects-certificate":
+                _ctx("verifying").wrap_socket(s, server_hostname="gopher.example").close()
+                note += " (handshake unexpectedly succeeded)"
+            elif kind == "reset-before-first-byte":
+                s.setsockopt(socket.SOL_SOCKET, socket.SO_LINGER, struct.pack("ii", 1, 0))
+        finally:
+            s.close()
+    except (OSError, ValueError) as e:
+        note += " [%s]" % type(e).__name__
+    return note
+
+
+class _GoodClient:
+    """A well-behaved client that can be driven step by step: connect / (TLS handshake) / first byte / the rest."""
+
+    def __init__(self, port, rq, timeout):
+        self.port, self.rq, self.timeout = port, rq, timeout
+        self.s, self.err, self.sent = None, None, 0
+        self.payload = rq["data"].encode("latin-1")
+        self.myport = None
+
+    def _do(self, fn):
+        if self.err is None:
+            try:
+                fn()
+            except Exception as e:   # noqa
+                self.err = type(e).__name__ + ": " + str(e)
+
+    def connect(self):
+        def fn():
+            self.s = socket.create_connection(("127.0.0.1", self.port), timeout=self.timeout)
+            self.myport = self.s.getsockname()[1]
+        self._do(fn)
+
+    def handshake(self):
+        def fn():
+            if self.rq["tls"] and not isinstance(self.s, ssl.SSLSocket):
+                self.s = _ctx().wrap_socket(self.s)
+        self._do(fn)
+
+    def first_byte(self):
+        self.handshake()
+
+        def fn():
+            if not self.sent:
+                self.s.sendall(self.payload[:1])
+                self.sent = 1
+        self._do(fn)
+
+    def finish(self):
+        """send what has not been sent and read the whole answer -> (data, error)"""
+        data = b""
+        self.handshake()
+
+        def fn():
+            nonlocal data
+            self.s.sendall(self.payload[self.sent:])
+            while True:
+                try:
+                    chunk = self.s.recv(65536)
+                except ssl.SSLError as e:      # the server closes without close_notify
+                    if "EOF" in str(e).upper() or isinstance(e, (ssl.SSLEOFError, ssl.SSLZeroReturnError)):
+                        break
+                    raise
+                if not chunk:
+                    break
+                data += chunk
+        self._do(fn)
+        try:
+            if self.s is not None:
+                self.s.close()
+        except OSError:
+            pass
+        if self.myport is not None:
+            data = data.replace(b"REMOTE_PORT=%d\n" % self.myport, b"REMOTE_PORT=<this connection>\n")
+        return data, self.err
+
+
+def _sequential_refs(port, requests, out, label):
+    refs = {}
+    for name, rq in requests.items():
+        d1, e1 = _exchange(port, rq, ctx=_ctx())
+        d2, e2 = _exchange(port, rq, ctx=_ctx())
+        refs[name] = _mask(d1)
+        if e1 or e2 or _mask(d1) != _mask(d2) or not d1:
+            out["mismatches"].append({"phase": "sequential", "server": label, "request": name, "error": e1 or e2,
+                                      "first": d1[:200].decode("latin-1"), "second": d2[:200].decode("latin-1")})
+    return refs
+
+
+def c14_failing_clients(job, drv):
+    """(1) deterministic, threading server: a failing client's worker is stopped at the k-th event of its error
+           path (every k), a good client is accepted meanwhile, the worker is released, the good client is served;
+       (2) rounds, threading and forking server: a few failing and a few good clients at (almost) the same time,
+           many rounds, few descriptors open at a time.
+       Oracle: every good client receives exactly its sequential answer; the server stays alive and reaps."""
+    repo = drv.REPO
+    w = drv.World({"tree": job["tree"]})
+    res = {}
+    timeout = float(job.get("client_timeout", 5))
+    reqs = job["requests"]
+    try:
+        for servertype in job["servertypes"]:
+            conf = os.path.join(w.tmp, "conf-f-%s.conf" % servertype)
+            _write_conf(repo, w.root, servertype, conf, job.get("config"))
+            out = {"mismatches": [], "preempt": None, "rounds": None, "after": {}}
+            res[servertype] = out
+            threading_server = servertype == "ThreadingTCPServer"
+            # ---------------- (1) deterministic preemption on the error path ----------------
+            srv = None
+            if threading_server and job.get("preempt"):
+                logp = os.path.join(w.tmp, "log-fp-%s.txt" % servertype)
+                srv = Server(repo, conf, logp, mode=["errpath", "0"])
+                pre = {"trials": 0, "points_by_kind": {}, "where": {}, "descriptor_reused": 0, "bad": 0, "no_error_path": []}
+                out["preempt"] = pre
+                try:
+                    t00 = time.time()
+                    refs = _sequential_refs(srv.port, reqs, out, "errpath")
+                    pre["secs_sequential"] = round(time.time() - t00, 2)
+                    for tr in job["preempt"]:
+                        if pre["bad"] >= 3 or len(out["mismatches"]) >= 6:
+                            break
+                        kind = tr["fail"]
+                        for k in range(1, int(job.get("max_points", 24)) + 1):
+                            if pre["bad"] >= 3:
+                                break
+                            pick = tr["good"][(k - 1) % len(tr["good"])]
+                            st0 = srv.cmd("ep go")
+                            done0, acc0 = st0["done"], st0["accepted"]
+                            pcl = None
+                            if pick.get("before"):
+                                # a slow good client whose connection is open before the failing one arrives
+                                pcl = _GoodClient(srv.port, reqs[pick["before"]], timeout)
+                                pcl.connect()
+                                srv.cmd("ep acc %d 5" % (acc0 + 1))
+                                pcl.first_byte()
+                                acc0 += 1
+                            srv.cmd("ep arm %d" % k)
+                            box = {}
+                            ta = threading.Thread(target=lambda: box.__setitem__("a", _failing_client(srv.port, kind)), daemon=True)
+                            ta.start()
+                            st = srv.cmd("ep wait %d 5" % done0)
+                            reached = st["paused"] is not None
+                            bcl = None
+                            fds = None
+                            if reached:
+                                bcl = _GoodClient(srv.port, reqs[pick["during"]], timeout)
+                                bcl.connect()
+                                st2 = srv.cmd("ep acc %d 5" % (acc0 + 2))
+                                fds = st2["fds"][-2:]
+                                if pick.get("phase") == 1:
+                                    bcl.handshake()
+                                elif pick.get("phase") == 2:
+                                    bcl.first_byte()
+                                    time.sleep(0.01)
+                            srv.cmd("ep go")
+                            srv.cmd("ep done %d 5" % (done0 + 1))            # the failing client's worker has finished
+                            ta.join(6)
+                            if reached and pick.get("settle"):
+                                time.sleep(pick["settle"])
+                            got = []
+                            for who, cl, nm in (("the client accepted while the worker was stopped", bcl, pick["during"]),
+                                                ("the slow client connected before", pcl, pick.get("before"))):
+                                if cl is None:
+                                    continue
+                                data, err = cl.finish()
+                                got.append((who, nm, data, err))
+                            srv.cmd("ep done %d 5" % (done0 + 1 + len(got)))
+                            if not reached:
+                                if k == 1:
+                                    pre["no_error_path"].append(kind)
+                                for who, nm, data, err in got:
+                                    if err or _mask(data) != refs[nm]:
+                                        out["mismatches"].append({"phase": "failing client, no preemption", "failing_client": kind,
+                                                                  "request": nm, "error": err, "empty": not data,
+                                                                  "got": _mask(data)[:300].decode("latin-1"),
+                                                                  "expected": refs[nm][:300].decode("latin-1")})
+                                break
+                            pre["trials"] += 1
+                            pre["points_by_kind"][kind] = k
+                            wkey = "%s:%s" % (st["paused"][0], st["paused"][2])
+                            pre["where"][wkey] = pre["where"].get(wkey, 0) + 1
+                            if fds and len(fds) == 2 and fds[0] == fds[1]:
+                                pre["descriptor_reused"] += 1
+                            for who, nm, data, err in got:
+                                if err or _mask(data) != refs[nm]:
+                                    pre["bad"] += 1
+                                    out["mismatches"].append({
+                                        "phase": "error-path preemption", "failing_client": kind, "failing_client_did": box.get("a"),
+                                        "worker_stopped_at": {"function": st["paused"][0], "line": st["paused"][1],
+                                                              "event": st["paused"][2], "exception": st["paused"][3], "point": k},
+                                        "server_descriptors_of_failing_and_next_connection": fds,
+                                        "wrong_answer_of": who, "request": nm, "good_client": pick, "error": err, "empty": not data,
+                                        "got": _mask(data)[:300].decode("latin-1"), "expected": refs[nm][:300].decode("latin-1")})
+                    pre["secs"] = round(time.time() - t00, 2)
+                    stats = srv.stat()
+                    for _ in range(30):
+                        if stats["threads"] <= 2:
+                            break
+                        time.sleep(0.1)
+                        stats = srv.stat()
+                    bad = []
+                    for pn in job["probe"]:
+                        d, e = _exchange(srv.port, reqs[pn], ctx=_ctx())
+                        if e or _mask(d) != refs[pn]:
+                            bad.append({"request": pn, "error": e, "got": _mask(d)[:200].decode("latin-1")})
+                    out["after"]["preempt"] = {"threads": stats["threads"], "serving": stats["serving"], "probe_ok": not bad,
+                                               "probe_error": bad[:2] or None}
+                except RuntimeError as e:
+                    out["after"]["preempt"] = {"threads": None, "serving": False, "probe_ok": False, "probe_error": str(e)}
+                finally:
+                    if out["mismatches"] or not out["after"].get("preempt", {}).get("probe_ok"):
+                        srv.stop()
+                        srv = None
+                        try:
+                            with open(logp + ".stderr", errors="replace") as f:
+                                out["server_stderr_tail"] = f.read()[-1500:]
+                        except OSError:
+                            pass
+            # ---------------- (2) rounds: whatever interleaving the OS produces ----------------
+            rounds = job.get("rounds") or []
+            if rounds:
+                logr = os.path.join(w.tmp, "log-fr-%s.txt" % servertype)
+                rd = {"rounds": 0, "good_clients": 0, "failing_clients": 0, "bad": 0, "secs": 0}
+                out["rounds"] = rd
+                if srv is not None:
+                    # the server of part (1) goes on: tracing off, short switch interval
+                    srv.cmd("ep untrace %s" % job.get("switch_interval", 1e-5))
+                    fresh = False
+                else:
+                    srv = Server(repo, conf, logr, mode=(["switchy", job.get("switch_interval", 1e-5)] if threading_server else None))
+                    fresh = True
+                try:
+                    t00 = time.time()
+                    if fresh:
+                        refs = _sequential_refs(srv.port, reqs, out, "rounds")
+                    rd["secs_sequential"] = round(time.time() - t00, 2)
+                    for ri, rnd in enumerate(rounds):
+                        if rd["bad"] >= 3:
+                            break
+                        good, failing = rnd["good"], rnd["failing"]
+                        outs = [None] * len(good)
+                        t_start = time.time() + 0.01
+
+                        def run_good(i, g):
+                            time.sleep(max(0.0, t_start + g["at"] - time.time()))
+                            outs[i] = _exchange(srv.port, reqs[g["name"]], timeout=timeout, ctx=_ctx(), send_delay=g.get("send_delay", 0.0),
+                                                split_at=g.get("split_at", 0), handshake_first=g.get("handshake_first", True))
+
+                        ts = [threading.Thread(target=run_good, args=(i, g), daemon=True) for i, g in enumerate(good)]
+                        ts += [threading.Thread(target=_failing_client, args=(srv.port, f["kind"], max(0.0, t_start + f["at"] - time.time())),
+                                                daemon=True) for f in failing]
+                        for t in ts:
+                            t.start()
+                        for t in ts:
+                            t.join(timeout * 2 + 10)
+                        rd["rounds"] += 1
+                        rd["good_clients"] += len(good)
+                        rd["failing_clients"] += len(failing)
+                        for i, g in enumerate(good):
+                            data, err = outs[i] if outs[i] is not None else (b"", "client thread did not finish")
+                            if err or _mask(data) != refs[g["name"]]:
+                                rd["bad"] += 1
+                                out["mismatches"].append({
+                                    "phase": "round %d of failing and good clients" % ri, "request": g["name"], "client": g,
+                                    "round": rnd, "error": err, "empty": not data, "got": _mask(data)[:300].decode("latin-1"),
+                                    "expected": refs[g["name"]][:300].decode("latin-1")})
+                    rd["secs"] = round(time.time() - t00, 2)
+                    stats = None
+                    for _ in range(40):
+                        stats = srv.stat()
+                        running, zombies = srv.children()
+                        if stats["active_children"] == 0 and running == 0 and zombies == 0 and stats["threads"] <= 2:
+                            break
+                        time.sleep(0.1)
+                    bad = []
+                    for pn in job["probe"]:
+                        d, e = _exchange(srv.port, reqs[pn], ctx=_ctx())
+                        if e or _mask(d) != refs[pn]:
+                            bad.append({"request": pn, "error": e, "got": _mask(d)[:200].decode("latin-1")})
+                    out["after"]["rounds"] = {"threads": stats["threads"], "serving": stats["serving"],
+                                              "active_children": stats["active_children"], "child_processes_running": running,
+                                              "zombies": zombies, "probe_ok": not bad, "probe_error": bad[:2] or None}
+                finally:
+                    out["left_behind"] = srv.stop()
+        return res
+    finally:
+        w.close()
+
+
 def register(OPS, drv):
+    OPS["c14_failing_clients"] = lambda job: c14_failing_clients(job, drv)
     OPS["c14_probe_list"] = lambda job: c14_probe_list(job, drv)
     OPS["c14_lazy"] = lambda job: c14_lazy(job, drv)
     OPS["c14_sched"] = lambda job: c14_sched(job, drv)
